@@ -290,6 +290,11 @@ def abort_clauses(m, a, out, what):
     """
     s, ta, stop, lim = a.sid, a.ta, a.stop, a.lim
     final = getattr(m.exe, 'final', {})
+    attributed = m.cancel_attribution
+    if not attributed:
+        out.count('aborts whose cancel requests could not be attributed to jobs (clauses skipped)')
+    else:
+        out.count('aborts with cancel requests attributed to jobs')
     cancelled_bodyends = []
     for j in a.dj:
         en = m.enter(j)
@@ -318,7 +323,7 @@ def abort_clauses(m, a, out, what):
             out.nontrivial = True
             if m.is_sched[j]:
                 out.count('  ... of which nested schedulers')
-            if not cs:
+            if not cs and attributed:
                 out.violation('running-job-not-cancelled',
                               "%s %s at t=%s: %s was running and never got a cancel request" % (s, what, ta, j))
         # queued for a window slot: eligible strictly before ta, never entered
@@ -327,7 +332,7 @@ def abort_clauses(m, a, out, what):
             if all(x is not None and x['t'] < ta for x in ends) and a.t0 < ta:
                 out.count('jobs queued for a slot at the abort instant')
                 out.nontrivial = True
-                if not cs:
+                if not cs and attributed:
                     out.violation('queued-job-not-cancelled',
                                   "%s %s at t=%s: %s was waiting for a window slot and never got a cancel request"
                                   % (s, what, ta, j))
